@@ -23,9 +23,9 @@ GEN = {"und4": "modularity_louvain_und", "und5": "modularity_louvain_und",
 GEN_B = ["mod5", "moddir4", "potts5", "nsym4", "nasym4"]      # community_louvain (LouvainBImpl)
 MCB_QUICK = ["q_mod4", "q_moddir3", "q_nsym3", "q_nasym3"]
 MCB_THOROUGH = ["q_mod4", "q_moddir3", "q_potts4", "q_nsym3", "q_nasym3", "t_mod4w", "t_nsym4", "t_nasym4", "t_moddir4"]
-GEN_S = {"sta5": "modularity_louvain_und_sign", "gja4": "modularity_louvain_und_sign",
+GEN_S = {"sta4": "modularity_louvain_und_sign", "gja4": "modularity_louvain_und_sign",
          "pos4": "modularity_louvain_und_sign", "fsmp4": "modularity_finetune_und_sign",
-         "fneg5": "modularity_finetune_und_sign"}                  # signed routines (LouvainSImpl)
+         "fneg4": "modularity_finetune_und_sign"}                  # signed routines (LouvainSImpl)
 MCS_QUICK = ["q_sta4", "q_fgja3"]
 MCS_THOROUGH = ["q_sta4", "q_fgja3", "t_smp4", "t_fneg4", "t_pos4", "t_fsta4"]
 MC_QUICK = ["q_und4", "q_und4g", "q_dir3", "q_fdir3"]
